@@ -43,6 +43,9 @@ inductive Pc
   | remove                      -- owner: `ComputingLockGuard::done`, about to `remove_sync`
   | notify                      -- owner: entry removed, about to `notify_waiters`
   | done                        -- `query_for` returned (fast path hit)
+  | removeA                     -- cancelled owner: `Drop for ComputingLockGuard` → `done()`, about to `remove_sync`
+  | notifyA                     -- cancelled owner: entry removed, about to `notify_waiters`
+  | gone                        -- the request's future was dropped (cancelled by the repair of its caller)
 deriving DecidableEq, Repr, Inhabited
 
 def Pc.holdsShared : Pc → Bool
@@ -50,7 +53,19 @@ def Pc.holdsShared : Pc → Bool
   | _ => false
 
 def Pc.isOwner : Pc → Bool
-  | .exec _ | .wantX | .publish | .remove => true
+  | .exec _ | .wantX | .publish | .remove | .removeA => true
+  | _ => false
+
+/-- the request has ended: it returned, or its future was dropped -/
+def Pc.ended : Pc → Bool
+  | .done | .gone => true
+  | _ => false
+
+/-- a caller in this state may drop (or has dropped) the futures of its nested requests: the repair
+of an owner cancels the remaining callee checks of an unordered group as soon as one of them asks
+for a recomputation (`check_callee_chunked`), and a cancelled caller takes its nested requests with it -/
+def Pc.cancelsChildren : Pc → Bool
+  | .exec _ | .removeA | .notifyA | .gone => true
   | _ => false
 
 def Pc.waitingOn : Pc → Option Nat
@@ -74,10 +89,8 @@ structure State where
   verified : Nat → Bool
   /-- `Computing.computing_lock`: key ↦ the task that inserted the entry -/
   table : Nat → Option Nat
-  /-- ghost: how many times the executor / repair of `k` was started in this epoch -/
-  execCount : Nat → Nat
-  /-- ghost: publishes in order (newest first) -/
-  log : List Nat
+  /-- ghost: publications in order (newest first): (key, publishing task) -/
+  log : List (Nat × Nat)
   /-- an executor issues at most this many queries (executors are finite; any bound) -/
   maxCalls : Nat
 
@@ -88,9 +101,9 @@ def State.setTask (s : State) (i : Nat) (t : Task) : State :=
 def State.noneWith (s : State) (k : Nat) (p : Pc → Bool) : Bool :=
   (List.range s.n).all fun j => !((s.task j).key == k && p (s.task j).pc)
 
-/-- every request issued by task `i` has returned -/
+/-- every request issued by task `i` has returned or was cancelled -/
 def State.childrenDone (s : State) (i : Nat) : Bool :=
-  (List.range s.n).all fun j => !((s.task j).parent == some i && (s.task j).pc != .done)
+  (List.range s.n).all fun j => !((s.task j).parent == some i && !(s.task j).pc.ended)
 
 inductive Ev
   | loopHead (i : Nat)      -- `exit_scc`: `try_get_notified_computing_lock` (one `read_sync`)
@@ -105,6 +118,9 @@ inductive Ev
   | publish (i : Nat)       -- `set_computed` / `clean_query`, then the exclusive lock is dropped
   | remove (i : Nat)        -- `done()`: `remove_sync`
   | notify (i : Nat)        -- `done()`: `notify_waiters`
+  | abort (j : Nat)         -- the future of a nested request is dropped at an await point
+  | removeA (i : Nat)       -- cancelled owner, `Drop` → `done()`: `remove_sync`
+  | notifyA (i : Nat)       -- cancelled owner: `notify_waiters`
 deriving DecidableEq, Repr, Inhabited
 
 def step (s : State) : Ev → Option State
@@ -155,8 +171,7 @@ def step (s : State) : Ev → Option State
           some (s.setTask i { t with pc := .wait o, woken := false })
         | none =>
           some { (s.setTask i { t with pc := .exec s.maxCalls }) with
-                 table := fun k => if k = t.key then some i else s.table k,
-                 execCount := fun k => if k = t.key then s.execCount k + 1 else s.execCount k }
+                 table := fun k => if k = t.key then some i else s.table k }
     else none
   | .call i d =>
     let t := s.task i
@@ -184,7 +199,7 @@ def step (s : State) : Ev → Option State
     if i < s.n ∧ t.pc = .publish then
       some { (s.setTask i { t with pc := .remove }) with
              verified := fun k => if k = t.key then true else s.verified k,
-             log := t.key :: s.log }
+             log := (t.key, i) :: s.log }
     else none
   | .remove i =>
     let t := s.task i
@@ -201,6 +216,35 @@ def step (s : State) : Ev → Option State
                else if (s.task j).pc.waitingOn = some i then { s.task j with woken := true }
                else s.task j }
     else none
+  | .abort j =>
+    let t := s.task j
+    match t.parent with
+    | some p =>
+      if j < s.n ∧ (s.task p).pc.cancelsChildren = true then
+        match t.pc with
+        -- the owner's guard is dropped with the future: `Drop` runs `done()` (two more steps).  After the
+        -- executor has returned the publication runs inside `.guarded()` and cannot be cancelled; the
+        -- wait for the exclusive lock of the clean-only path (`computing_lock_to_clean_query`) can
+        | .exec _ | .wantX => some (s.setTask j { t with pc := .removeA })
+        | .loopHead | .sccWait _ | .snap | .fast | .guardA | .resnap | .guardB | .wait _ =>
+          some (s.setTask j { t with pc := .gone })
+        | _ => none
+      else none
+    | none => none          -- a user request is never cancelled here (C05 covers that)
+  | .removeA i =>
+    let t := s.task i
+    if i < s.n ∧ t.pc = .removeA then
+      some { (s.setTask i { t with pc := .notifyA }) with
+             table := fun k => if k = t.key then none else s.table k }
+    else none
+  | .notifyA i =>
+    let t := s.task i
+    if i < s.n ∧ t.pc = .notifyA then
+      some { s with task := fun j =>
+               if j = i then { t with pc := .gone }
+               else if (s.task j).pc.waitingOn = some i then { s.task j with woken := true }
+               else s.task j }
+    else none
 
 /-- Any number of user requests (`roots`: their keys, in any multiplicity), nothing verified yet in
 this epoch, empty table. -/
@@ -209,7 +253,7 @@ def init (roots : List Nat) (maxCalls : Nat) : State :=
     task := fun i => match roots[i]? with
       | some k => { key := k, pc := .loopHead, parent := none, woken := false }
       | none => {},
-    verified := fun _ => false, table := fun _ => none, execCount := fun _ => 0, log := [],
+    verified := fun _ => false, table := fun _ => none, log := [],
     maxCalls := maxCalls }
 
 inductive Reachable (roots : List Nat) (maxCalls : Nat) : State → Prop
@@ -256,7 +300,7 @@ def kStep (ks : KeyState) : KEv → Option KeyState
   | .reg g => if ks.entry = some g then some { ks with unnotified := ks.unnotified + 1 } else none
   | .publish => if ks.entry.isSome = true ∧ ks.verified = false then some { ks with verified := true } else none
   | .done_ g =>
-    if ks.entry = some g ∧ ks.verified = true then
+    if ks.entry = some g then
       some { ks with entry := none, unnotified := 0, pool := ks.pool + ks.unnotified }
     else none
   | .woken => if 0 < ks.pool then some { ks with pool := ks.pool - 1 } else none
